@@ -2,6 +2,7 @@ package main
 
 import (
 	"fmt"
+	"go/token"
 	"strings"
 
 	"golang.org/x/tools/go/ssa"
@@ -10,7 +11,7 @@ import (
 func init() {
 	register(&propDef{
 		ID:       "C02",
-		Explain:  "Decided: the complete single-step decision table of (*cache.Target).gnmiUpdate over the orderings of the new and the stored timestamp (<,=,>), proto-equality, the future-threshold atoms (threshold sign, ahead of clock, first update, ahead of latest timestamp), evaluated on every CFG path: stale (<, or = and identical) => ErrStale and no tree write; = and different => Leaf.Update(n), nil error; > => Leaf.Update(n) unless exactly the future condition holds => ErrFuture and no write; any non-nil error => no Leaf.Update / Tree.Add. The delete condition passed to WalkDeleted is true iff stored < delete timestamp, and ctree.internalDelete removes a leaf only on the true edge of the condition. Also decided: in the arm of Target.GnmiUpdate that splits a combined notification both loops are left only through their headers and every path from the update loop to a return passes the delete loop (a delete is applied whatever happened to the updates it travelled with). Round-3 additions: the (updates, deletes) dispatch table of Target.GnmiUpdate; the latest accepted timestamp only moves forward and is advanced by every accepted non-metadata update (C15.latest, borrowed) - the future-timestamp rejection compares with it. Round-4 addition: the tree unlinks exactly what the timestamp condition accepted (C09.prune-guard / select / conditional, borrowed): a branch is reported removable only when no child is left. Round-5 addition: gnmiRemove hands every non-empty joined path to the tree's conditional delete on every path that consults the tree - no exact-path lookup (which does not understand wildcards) may decide that the delete is skipped.",
+		Explain:  "Decided: the complete single-step decision table of (*cache.Target).gnmiUpdate over the orderings of the new and the stored timestamp (<,=,>), proto-equality, the future-threshold atoms (threshold sign, ahead of clock, first update, ahead of latest timestamp), evaluated on every CFG path: stale (<, or = and identical) => ErrStale and no tree write; = and different => Leaf.Update(n), nil error; > => Leaf.Update(n) unless exactly the future condition holds => ErrFuture and no write; any non-nil error => no Leaf.Update / Tree.Add. The delete condition passed to WalkDeleted is true iff stored < delete timestamp, and ctree.internalDelete removes a leaf only on the true edge of the condition. Also decided: in the arm of Target.GnmiUpdate that splits a combined notification both loops are left only through their headers and every path from the update loop to a return passes the delete loop (a delete is applied whatever happened to the updates it travelled with). Round-3 additions: the (updates, deletes) dispatch table of Target.GnmiUpdate; the latest accepted timestamp only moves forward and is advanced by every accepted non-metadata update (C15.latest, borrowed) - the future-timestamp rejection compares with it. Round-4 addition: the tree unlinks exactly what the timestamp condition accepted (C09.prune-guard / select / conditional, borrowed): a branch is reported removable only when no child is left. Round-5 addition: gnmiRemove hands every non-empty joined path to the tree's conditional delete on every path that consults the tree - no exact-path lookup (which does not understand wildcards) may decide that the delete is skipped. Round-7 addition: nothing reachable from gnmiRemove stores to Target.ts - a delete never moves the reference the future-timestamp test is measured against.",
 		NotCover: "the per-leaf invariant over sequences of notifications (follows by induction only with C09/C10), clock behaviour, atomic-container interplay, that GetLeaf/Add/Update address the same leaf",
 		Run:      runC02,
 	})
@@ -70,6 +71,7 @@ func runC02(c *Ctx) {
 	gnmiDispatch(c, a, "C02.dispatch")
 	c.Borrow("C09", map[string]string{"C09.prune-guard": "C02.delete-prune", "C09.select": "C02.delete-select", "C09.conditional": "C02.delete-conditional"}, "'a delete at time T removes exactly the matching leaves whose stored timestamp is older than T': the tree must unlink exactly the leaves the timestamp condition accepted - a branch pruned on the verdict of one child takes newer leaves with it")
 	deleteApplied(c, a, "C02.delete-applied")
+	removeKeepsLatest(c, "C02.latest-writers")
 	c.Rule("C02.del-honoured", "in ctree.internalDelete the leaf arm calls f and reports deletion only on the true edge of condition(value)")
 
 	nParam := ssa.Value(param(a.gnmiUpdate, 1))
@@ -319,6 +321,30 @@ func deleteCondTable(c *Ctx, a *cacheAnchors, rule string) {
 				}
 				if call, ok := r.V.(*ssa.Call); ok && (calleeName(&call.Call) == "cache.T") {
 					return cls2(e, st, RV{r.F, call.Call.Args[0]})
+				}
+				// the delete's timestamp kept in a field of a small collector object of the enclosing function
+				// (&removal{timestamp: n.GetTimestamp()}): the field's only store, made where the object is built
+				if u, ok := r.V.(*ssa.UnOp); ok && u.Op == token.MUL {
+					if fa, ok := u.X.(*ssa.FieldAddr); ok {
+						base := e.Resolve(st, RV{r.F, fa.X})
+						if al, ok := base.V.(*ssa.Alloc); ok && al.Parent() != cf && al.Referrers() != nil {
+							var vals []ssa.Value
+							for _, rr := range *al.Referrers() {
+								if f2, ok := rr.(*ssa.FieldAddr); ok && f2.Field == fa.Field && f2.Referrers() != nil {
+									for _, r3 := range *f2.Referrers() {
+										if st2, ok := r3.(*ssa.Store); ok && st2.Addr == ssa.Value(f2) {
+											vals = append(vals, st2.Val)
+										}
+									}
+								}
+							}
+							if len(vals) == 1 {
+								if call, ok := vals[0].(*ssa.Call); ok && calleeName(&call.Call) == "(*proto/gnmi.Notification).GetTimestamp" {
+									return "DEL"
+								}
+							}
+						}
+					}
 				}
 				return cls(e, st, rv)
 			}
